@@ -1,7 +1,7 @@
 (* C11 end to end for allOf: the struct generated for an allOf node accepts a JSON object iff every (resolved) member is valid -
    generator (the node is generated as the merge of its members), merge (the merge is the conjunction for compatible members) and
    decoder (the declared struct accepts iff valid, at any nesting depth) composed. *)
-From GJS Require Import Base Bounds IntSize Regex Schema Merge GoType Ident Gen Exec Valid ExecP GenP CoreP MethodP LevelP NestedP MergeP.
+From GJS Require Import Base Bounds IntSize Regex Schema Merge GoType Ident Gen Exec Valid ExecP GenP CoreP MethodP LevelP NestedP MergeP AnyOfP.
 
 Section AllOfExact.
 Variable idf : str -> str.
@@ -40,6 +40,25 @@ Proof.
   rewrite (nested_object_exact idf cf defs fmt_ok env sdefs Hms Hom n a b0 c0 self false m scope t bb kv Hsc Hs Hk Hg).
   destruct (fuelV_SS n c0) as [x Hx]. rewrite Hx.
   exact (merge_is_conjunction fmt_ok sdefs rs m (S x) (JObj kv) Hnp Hcompat Hmt).
+Qed.
+
+(* anyOf: the carrier's method accepts a JSON object iff some branch is VALID (reference semantics) and the object decodes into the carrier's
+   merged fields - for branches that are scalar objects of depth n, whose types were generated from them, once every branch decode is decided
+   (no crash: C19_total under wf_ty; fuel enough: checked per instance) *)
+Theorem anyof_objects_exact n b0 c0 ch nm fs (bs : list schema) (brs : list gty) kv :
+  Forall2 (fun b bt => exists a self sub sc bb, sc <> [] /\ sobj idf cf defs env sdefs n b /\ dok idf cf defs env sdefs n b kv /\
+                       gen (fuelG n a) MDeclared self sub b sc = Done (bt, bb)) bs brs ->
+  (forall bt, In bt brs -> dec (fuelD n b0) bt (JObj kv) <> Crash /\ dec (fuelD n b0) bt (JObj kv) <> NoFuel) ->
+  is_ok (dec (S (fuelD n b0)) (TStruct (ch :: nm) fs (Some [VAnyOf brs])) (JObj kv)) =
+  existsb (fun b => valid (fuelV n c0) b (JObj kv)) bs &&
+  is_ok (obind (plain_fields (dec (fuelD n b0)) zero fs (JObj kv)) (fun st => addl_block fs (Some (Some kv)) st)).
+Proof.
+  intros Hrel Hdec. rewrite (anyof_method fmt_ok env). cbn zeta. rewrite (anyof_step _ _ _ _ Hdec).
+  assert (Hex : existsb (fun bt => is_ok (dec (fuelD n b0) bt (JObj kv))) brs = existsb (fun b => valid (fuelV n c0) b (JObj kv)) bs).
+  { clear Hdec. induction Hrel as [|b bt l1 l2 (a & self & sub & sc & bb & Hsc & Hs & Hk & Hg) _ IH]; [reflexivity|].
+    cbn [existsb]. rewrite IH. f_equal.
+    exact (nested_object_exact idf cf defs fmt_ok env sdefs Hms Hom n a b0 c0 self sub b sc bt bb kv Hsc Hs Hk Hg). }
+  rewrite Hex. destruct (existsb _ bs); cbn [obind is_ok andb]; reflexivity.
 Qed.
 End AllOfExact.
 
@@ -90,4 +109,52 @@ Proof.
     destruct Hp as (mn & mx & ->). split; [|split; [|exact I]].
     + intros (c & m & E & Ht & _). inversion E; subst c; discriminate.
     + intros (c & it & E & _). inversion E.
+Qed.
+
+(* ---------- an instance of the anyOf statement: anyOf of {a: string, required} and {b: integer, required} (AnyOfP.ex_any) ---------- *)
+Definition an_b0 : gty := Eval vm_compute in match Gen.gen (fun s => s) (mkCfg false false) [] (fuelG 0 0) MDeclared None true (ob [97]%N SString) [84; 95; 48]%N with Done (t, _) => t | _ => TIface end.
+Definition an_b1 : gty := Eval vm_compute in match Gen.gen (fun s => s) (mkCfg false false) [] (fuelG 0 0) MDeclared None true (ob [98]%N SInteger) [84; 95; 49]%N with Done (t, _) => t | _ => TIface end.
+Definition an_docs : list (list (str * json)) :=
+  [[([97]%N, JStr [120]%N)]; [([98]%N, JInt 1)]; []; [([97]%N, JStr [120]%N); ([98]%N, JStr [121]%N)]].   (* first branch, second branch, neither, first branch but b is not an integer *)
+
+Lemma ob_sobj k t : k <> [] -> (t = SString \/ t = SInteger) -> sobj (fun s => s) (mkCfg false false) [] [] [] 0 (ob k t).
+Proof.
+  intros Hk Ht. cbn [sobj]. repeat split; try reflexivity; try discriminate.
+  - repeat constructor. intros [].
+  - intros x [H|[]]. subst. left; reflexivity.
+  - cbn. repeat constructor. intros [].
+  - intros fname kp H. cbn in H. destruct H as [H|[]]. inversion H; subst. exact Hk.
+  - intros k0 p [H|[]]. inversion H; subst. left. destruct Ht as [-> | ->].
+    + left. eexists. repeat split; reflexivity.
+    + right. left. exists (mkC [SInteger] None None [] 0 0 0 0 None None (mkBounds None None None None) None None), None.
+      repeat split; try reflexivity; try discriminate.
+Qed.
+
+Example anyof_exact_inhabited :
+  exists t bb fs, Gen.gen (fun s => s) (mkCfg false false) [] 6 MInline None false ex_any ex_t = Done (t, bb) /\ t = TStruct ex_t fs (Some [VAnyOf [an_b0; an_b1]]) /\
+    (forall kv, In kv an_docs ->
+       is_ok (Exec.dec (fun _ _ => true) [] (S (fuelD 0 0)) t (JObj kv)) =
+       existsb (fun b => Valid.valid (fun _ _ => true) [] (fuelV 0 0) b (JObj kv)) [ob [97]%N SString; ob [98]%N SInteger] &&
+       is_ok (obind (plain_fields (Exec.dec (fun _ _ => true) [] (fuelD 0 0)) zero fs (JObj kv)) (fun st => addl_block fs (Some (Some kv)) st))) /\
+    map (fun kv => is_ok (Exec.dec (fun _ _ => true) [] (S (fuelD 0 0)) t (JObj kv))) an_docs = [true; true; false; false] /\
+    map (fun kv => existsb (fun b => Valid.valid (fun _ _ => true) [] (fuelV 0 0) b (JObj kv)) [ob [97]%N SString; ob [98]%N SInteger]) an_docs = [true; true; false; true].
+Proof.
+  eexists. eexists. eexists. split; [vm_compute; reflexivity|]. split; [reflexivity|]. split; [|split; vm_compute; reflexivity].
+  intros kv Hkv.
+  apply (anyof_objects_exact (fun s => s) (mkCfg false false) [] (fun _ _ => true) [] [] eq_refl eq_refl 0 0 0).
+  - constructor; [|constructor; [|constructor]].
+    + exists 0, None, true, [84; 95; 48]%N. eexists. split; [discriminate|]. split; [apply ob_sobj; [discriminate|left; reflexivity]|]. split; [|vm_compute; reflexivity].
+      cbn [dok]. split; [destruct Hkv as [<-|[<-|[<-|[<-|[]]]]]; repeat constructor; cbn; intuition discriminate|].
+      intros k p x Hin Hl. destruct Hin as [Hin|[]]. inversion Hin; subst k p.
+      assert (Hx : x = JStr [120]%N) by (destruct Hkv as [<-|[<-|[<-|[<-|[]]]]]; vm_compute in Hl; inversion Hl; reflexivity). subst x.
+      split; [discriminate|]. split; [intros _ s0 E; inversion E; reflexivity|]. split; [intros (c & m & E & Ht & _); inversion E; subst c; discriminate|].
+      split; [intros (c & it & E & _); inversion E|exact I].
+    + exists 0, None, true, [84; 95; 49]%N. eexists. split; [discriminate|]. split; [apply ob_sobj; [discriminate|right; reflexivity]|]. split; [|vm_compute; reflexivity].
+      cbn [dok]. split; [destruct Hkv as [<-|[<-|[<-|[<-|[]]]]]; repeat constructor; cbn; intuition discriminate|].
+      intros k p x Hin Hl. destruct Hin as [Hin|[]]. inversion Hin; subst k p.
+      assert (Hx : x = JInt 1 \/ x = JStr [121]%N) by (destruct Hkv as [<-|[<-|[<-|[<-|[]]]]]; vm_compute in Hl; inversion Hl; auto).
+      split; [destruct Hx as [-> | ->]; discriminate|]. split; [intros (c & E & Ht & _); inversion E; subst c; discriminate|].
+      split; [|split; [intros (c & it & E & _); inversion E|exact I]].
+      intros _. split; [destruct Hx as [-> | ->]; discriminate|]. intros n0 E. destruct Hx as [-> | ->]; inversion E. exists 1%Z. split; reflexivity.
+  - intros bt [<-|[<-|[]]]; destruct Hkv as [<-|[<-|[<-|[<-|[]]]]]; vm_compute; split; discriminate.
 Qed.
